@@ -798,6 +798,7 @@ def do_check(prop: Prop, tier: str, seed: int, t0: float) -> int:
     # 3. correspondence
     cases, gen_error = collect_cases(prop, rng, tier)
     viols, impl_res, model_res = evaluate(prop, cases)
+    viols += cold_start_sample(prop, cases, impl_res, 6 if tier == "quick" else 40, model_res)   # (appended section COLD START)
     # distribution
     dist: Dict[str, int] = {}
     verdicts: Dict[str, int] = {}
@@ -1782,3 +1783,250 @@ def value_directed_bursts(raw: bytes, windows: Optional[Iterable[int]] = None, t
         for v in octet_values:
             add(i, 1, v, f"octet@{i}={v:02x}")
     return out
+
+
+# --------------------------------------------------------------------------------------------
+# COLD START: the answer of an operation must not depend on what the process did before (lazily initialised tables,
+# module globals filled by "whichever call comes first", import-order effects). The correspondence check evaluates every
+# case in ONE process, so whatever the first few cases initialise stays initialised for all the others: a table that only
+# SOME entry points fill (and others read unfilled) is never seen. A sample of the cases is therefore run again, each as
+# the FIRST AND ONLY implementation operation of a FRESH interpreter (`check.py <id> --cold-case -`, the op line on stdin;
+# same VERIF_REPO, same op function, same canonicalisation of the result), and the answer is compared with the one the
+# same case got in this (warm) process. Cases that carry their own history (`prior`, `before`, `twin`, `hist`, `poison`,
+# `mut` ... keys) replay it inside the child as well - the op handles those keys itself; core.ISOLATION / core.REUSE only
+# ever raise SelfCheckFailure and do not enter a result. A Prop may name cases that must always be in the sample
+# (`cold_start_cases()`: tags / op-subsets / predicates - e.g. one case per entry path of a shared helper) and cases that
+# must never be (`cold_start_skip(case)`: ops that read process-global harness state).
+# --------------------------------------------------------------------------------------------
+COLD_MARK = "COLD-RESULT "
+CHECK_PY = os.path.join(VERIF, "harness", "check.py")
+COLD_START_LAST: Dict[str, Any] = {}     # what the last sample did (for tools / debugging; not part of any verdict)
+
+
+def _cold_canon(case: Case, r: Dict[str, Any]) -> Any:
+    """the part of a canonical implementation result that the property speaks about: the ok-payload restricted to the
+    compared keys; for a refusal the documented class only where the case compares it (`errclass`), otherwise just
+    "refused with a documented class" (which documented class refuses is free wherever the property does not name it);
+    never the message text"""
+    if "ok" in r:
+        return {"ok": restrict(r["ok"], case.keys)}
+    if "selfcheck" in r:
+        return {"selfcheck": r["selfcheck"]}
+    if "err" in r:
+        if r["err"] not in DOCUMENTED:
+            return {"err": r["err"]}
+        if case.errclass:
+            return {"err": r["err"], "errs": sorted(r.get("errs", [r["err"]]))}
+        return {"err": "(documented)"}
+    return r
+
+
+def cold_case_child(prop: Prop, text: str) -> int:
+    """body of `check.py <id> --cold-case -`: `text` is one op line (JSON object). The op is the first thing this
+    interpreter does with the package (the property module has been imported - nothing has been called); the result is
+    printed in the canonical form of run_impl behind COLD_MARK. Which tree the package came from is looked at AFTER the op."""
+    op = json.loads(text)
+    r = run_impl(prop.impl_ops(), Case(op))
+    origin = None
+    try:
+        import spacepackets
+        origin = os.path.abspath(spacepackets.__file__)
+    except Exception:  # noqa
+        pass
+    sys.stdout.write("\n" + COLD_MARK + json.dumps({"result": r, "origin": origin, "repo": os.path.abspath(REPO)}) + "\n")
+    sys.stdout.flush()
+    return 0
+
+
+def run_cold(prop_id: str, op: Dict[str, Any], timeout: float = 60.0) -> Dict[str, Any]:
+    """the canonical implementation result of `op` as the first and only operation of a fresh interpreter, or
+    {"skipped": reason} (time-out, the child did not answer, the child imported another tree)"""
+    try:
+        p = subprocess.run([sys.executable, CHECK_PY, prop_id, "--cold-case", "-"], input=json.dumps(op).encode(),
+                           stdout=subprocess.PIPE, stderr=subprocess.PIPE, timeout=timeout, cwd=VERIF, env=dict(os.environ))
+    except subprocess.TimeoutExpired:
+        return {"skipped": f"no answer within {timeout:.0f} s"}
+    lines = [l for l in p.stdout.decode(errors="replace").split("\n") if l.startswith(COLD_MARK)]
+    if p.returncode != 0 or not lines:
+        return {"skipped": f"child exit {p.returncode}: {(p.stdout[-200:] + p.stderr[-300:]).decode(errors='replace')}"}
+    doc = json.loads(lines[-1][len(COLD_MARK):])
+    if doc.get("origin") and not doc["origin"].startswith(doc["repo"]):
+        return {"skipped": f"child imported the package from {doc['origin']}, not from {doc['repo']}"}
+    return doc["result"]
+
+
+def _cold_matches(sel: Any, c: Case) -> bool:
+    if isinstance(sel, str):
+        return c.tag == sel
+    if isinstance(sel, dict):
+        return all(c.op.get(k) == v for k, v in sel.items())
+    if callable(sel):
+        try:
+            return bool(sel(c))
+        except Exception:  # noqa
+            return False
+    return False
+
+
+def cold_start_pick(prop: Prop, cases: List[Case], impl_results: List[Dict[str, Any]], n: int,
+                    model_results: Optional[List[Dict[str, Any]]] = None) -> Tuple[List[int], int]:
+    """(indices of the sample, how many of them the property named): every case named by prop.cold_start_cases() (first
+    match of each selector), then one case per distinct op name - op names in an order drawn from (VERIF_SEED, property),
+    further rounds with other tags if there are fewer op names than places - up to n further cases, all together at most
+    max(n, number of cores). Only cases whose warm answer raised no finding (those are reported anyway), no op line twice,
+    and of the few candidates drawn per op name one of the shorter ones (a fresh interpreter per case is affordable for
+    ordinary inputs; the 70 000-octet inputs and full sweeps stay warm)."""
+    seed = int(os.environ.get("VERIF_SEED", "0"))
+    rng = random.Random(f"cold-start|{prop.id}|{seed}")
+    skip = getattr(prop, "cold_start_skip", None)
+    chosen: List[int] = []
+    keys = set()
+
+    def usable(i: int) -> bool:
+        c, a = cases[i], impl_results[i]
+        if "selfcheck" in a or (skip is not None and skip(c)) or case_key(c) in keys:
+            return False
+        return model_results is None or compare(c, a, model_results[i]) is None
+
+    def take(i: int):
+        chosen.append(i)
+        keys.add(case_key(cases[i]))
+
+    named = getattr(prop, "cold_start_cases", None)
+    selectors = list(named()) if callable(named) else []
+    if selectors:
+        by_tag: Dict[str, List[int]] = {}
+        wanted = {sel for sel in selectors if isinstance(sel, str)}
+        for i, c in enumerate(cases):
+            if c.tag in wanted:
+                by_tag.setdefault(c.tag, []).append(i)
+        for sel in selectors:
+            where = by_tag.get(sel, []) if isinstance(sel, str) else range(len(cases))
+            i = next((i for i in where if _cold_matches(sel, cases[i]) and usable(i)), None)
+            if i is not None:
+                take(i)
+    n_named = len(chosen)
+    total = min(n_named + n, max(n, os.cpu_count() or 1))
+    by_op: Dict[str, List[int]] = {}
+    for i, c in enumerate(cases):
+        by_op.setdefault(c.op["op"], []).append(i)
+    names = sorted(by_op)
+    rng.shuffle(names)
+    tags_used = {(cases[i].op["op"], cases[i].tag) for i in chosen}
+    rounds = 0
+    while names and len(chosen) < total and rounds < 4 * max(n, 1):
+        rounds += 1
+        for name in list(names):
+            if len(chosen) >= total:
+                break
+            idx = by_op[name]
+            cand = [i for i in (rng.sample(idx, 12) if len(idx) > 12 else list(idx)) if usable(i)]
+            if not cand:
+                if len(idx) <= 12:
+                    names.remove(name)
+                continue
+            fresh = [i for i in cand if (name, cases[i].tag) not in tags_used]
+            cand = sorted(fresh or cand, key=lambda i: len(case_key(cases[i])))
+            i = rng.choice(cand[:(len(cand) + 1) // 2])
+            take(i)
+            tags_used.add((name, cases[i].tag))
+    return chosen, n_named
+
+
+def cold_start_sample(prop: Prop, cases: List[Case], impl_results: List[Dict[str, Any]], n: int,
+                      model_results: Optional[List[Dict[str, Any]]] = None) -> List[Violation]:
+    """Runs the sample (cold_start_pick) cold, all children at once (one thread per child, at most one per core), and
+    returns a Violation of kind `cold_start` (concrete: the case itself, run as the first operation of a fresh
+    interpreter, is the failing input) for every case whose cold answer differs from its warm one. A difference is only
+    reported when it is a property of the implementation: the warm answer is reproduced by running the case once more in
+    this process (otherwise the op is not a function of its case) and the cold answer by a second fresh interpreter
+    (otherwise it is not reproducible). VERIF_COLD_START=0 switches the probe off, VERIF_COLD_START=<n> overrides n."""
+    from concurrent.futures import ThreadPoolExecutor
+    t0 = time.time()
+    env_n = os.environ.get("VERIF_COLD_START", "")
+    if env_n.strip().lstrip("-").isdigit():
+        n = int(env_n)
+    COLD_START_LAST.clear()
+    if n <= 0 or not cases:
+        return []
+    chosen, n_named = cold_start_pick(prop, cases, impl_results, n, model_results)
+    if not chosen:
+        return []
+    # children of named cases get the time they need; the others must not hold up a quick run (n <= 10)
+    limits = [(60.0 if k < n_named else (4.0 if n <= 10 else 60.0)) for k in range(len(chosen))]
+    with ThreadPoolExecutor(max_workers=min(len(chosen), os.cpu_count() or 1)) as pool_:
+        cold = list(pool_.map(lambda kt: run_cold(prop.id, cases[kt[0]].op, kt[1]), zip(chosen, limits)))
+    out: List[Violation] = []
+    skipped: List[str] = []
+    ops = prop.impl_ops()
+    for i, r in zip(chosen, cold):
+        c, warm = cases[i], impl_results[i]
+        if "skipped" in r:
+            skipped.append(f"{c.op['op']}: {r['skipped']}")
+            continue
+        if _cold_canon(c, r) == _cold_canon(c, warm):
+            continue
+        again = run_impl(ops, c)
+        if _cold_canon(c, again) != _cold_canon(c, warm):
+            skipped.append(f"{c.op['op']}: the answer in this process is not reproducible (not a function of the case)")
+            continue
+        r2 = run_cold(prop.id, c.op, 120.0)
+        if "skipped" in r2 or _cold_canon(c, r2) != _cold_canon(c, r):
+            skipped.append(f"{c.op['op']}: the answer of a fresh interpreter is not reproducible")
+            continue
+        model = model_results[i] if model_results is not None else warm
+        out.append(Violation(
+            "cold_start", c.op, model,
+            {"fresh_interpreter": r, "this_process": warm, "compared_keys": c.keys, "errclass": c.errclass},
+            note=(f"order dependence: run as the FIRST AND ONLY operation of a fresh interpreter (harness/check.py {prop.id} "
+                  f"--cold-case -) this case is answered differently than in the process of the check, where {i} other cases "
+                  f"had run before it (and where the answer was the model's); reproduced in a second fresh interpreter and, "
+                  f"warm, in this process. What an operation answers must not depend on what the process did before (a "
+                  f"lazily initialised table / module global that only some entry points fill). impl= shows both answers"),
+            concrete=True, expect=c.expect))
+    COLD_START_LAST.update(sample=len(chosen), named=n_named, differences=len(out), skipped=skipped,
+                           wall_s=round(time.time() - t0, 2), ops=sorted({cases[i].op["op"] for i in chosen}))
+    print(f"cold-start property={prop.id}: {len(chosen)} cases re-run as the first operation of a fresh interpreter "
+          f"({COLD_START_LAST['named']} named by the property), {len(out)} answered differently, {len(skipped)} not comparable"
+          + (f" [{'; '.join(skipped)[:300]}]" if skipped else "") + f", {COLD_START_LAST['wall_s']} s")
+    return out
+
+
+def cold_replay(prop: Prop, path: str, doc: Dict[str, Any]) -> int:
+    """--replay of a `cold_start` finding: the case is run cold again (fresh interpreter) and compared with the model and
+    with the warm answer recorded in the file"""
+    info = doc.get("actual_implementation_output") or {}
+    c = Case(doc["case"], doc.get("expect", "valid"), errclass=bool(info.get("errclass", False)), keys=info.get("compared_keys"))
+    r = run_cold(prop.id, c.op, 600.0)
+    if "skipped" in r:
+        raise InfraError("cold replay: " + r["skipped"])
+    b = run_driver([json.dumps(c.op)])[0]
+    warm = info.get("this_process")
+    print("case:", json.dumps(c.op))
+    print("implementation (first and only operation of a fresh interpreter):", json.dumps(r))
+    print("implementation (recorded in the process of the check run, other cases before it):", json.dumps(warm))
+    print("model:", json.dumps(b))
+    v = compare(c, r, b)
+    differs = (isinstance(warm, dict) and compare(c, warm, b) is None and _cold_canon(c, r) != _cold_canon(c, warm))
+    if v is None and not differs:
+        print("replay: no violation on the current tree")
+        return 0
+    tail = "" if (v is None or v.concrete) else " no-failing-input-found"
+    print(f"VIOLATION property={prop.id} replay={os.path.relpath(path, VERIF)}{tail}")
+    return 1
+
+
+# `--replay` of a file whose kind is `cold_start` runs the case cold again; every other file as before. (main_check looks
+# the name `do_replay` up when it is called, so this definition - the file is append-only - is the one it finds.)
+_do_replay_warm = do_replay
+
+
+def do_replay(prop: Prop, path: str) -> int:  # noqa: F811
+    full = path if os.path.isabs(path) else os.path.join(VERIF, path)
+    try:
+        doc = json.load(open(full))
+    except (OSError, ValueError):
+        doc = {}
+    if doc.get("kind") == "cold_start" and doc.get("case") is not None:
+        return cold_replay(prop, full, doc)
+    return _do_replay_warm(prop, path)
